@@ -175,6 +175,53 @@ def run_missing(c):
     return r
 
 
+_named = {}
+
+
+def named_table():
+    """named tuples are outside the abstract value universe of the model: a fixed table of (value, annotation, conforms?)
+    judged on the implementation only"""
+    import typing, collections, dataclasses
+    from typing import NamedTuple, Tuple, List, Optional, Union, Sequence, Any, Dict
+    if _named:
+        return _named['t']
+    NT = NamedTuple('NT', [('a', int), ('b', str)])
+    NT2 = NamedTuple('NT2', [('a', int), ('b', str)])
+    UT = collections.namedtuple('UT', 'a b')
+
+    @dataclasses.dataclass
+    class D:
+        a: int
+        b: str
+
+    class Sub(NT):
+        pass
+    nt, ut = NT(1, 'x'), UT(1, 2)
+    t = [('NT vs own class', nt, NT, True), ('untyped namedtuple vs own class', ut, UT, True), ('NT vs object', nt, object, True),
+         ('NT vs Tuple[int, str]', nt, Tuple[int, str], True), ('NT vs tuple[int, str]', nt, tuple[int, str], True),
+         ('NT vs unrelated NamedTuple with equal fields', nt, NT2, False), ('NT vs dataclass with equal fields', nt, D, False),
+         ('untyped namedtuple vs Union[UT, int]', ut, Union[UT, int], True), ('[NT] vs List[NT]', [nt], List[NT], True),
+         ('NT vs Optional[NT]', nt, Optional[NT], True), ('NT vs Tuple[int, ...]', nt, Tuple[int, ...], False),
+         ('NT vs Sequence[Any]', nt, Sequence[Any], True), ('NT vs int', nt, int, False), ('NT vs Tuple[int]', nt, Tuple[int], False),
+         ('NT vs Any', nt, Any, True), ('untyped namedtuple vs Tuple[int, int]', ut, Tuple[int, int], True),
+         ('untyped namedtuple vs Tuple[int, str]', ut, Tuple[int, str], False), ('NT vs Dict[str, NT] value', {'k': nt}, Dict[str, NT], True),
+         ('subclass instance of NT vs NT', Sub(1, 'x'), NT, True), ('NT vs subclass of NT', nt, Sub, False),
+         ('NT vs tuple[NT2, int] element', (nt, 1), tuple[NT2, int], False), ('NT vs Union[NT2, str]', nt, Union[NT2, str], False)]
+    _named['t'] = t
+    return t
+
+
+def run_named(c):
+    from pedantic import assert_value_matches_type
+    t = named_table()
+    if c.get('size'):
+        return {'size': len(t)}
+    name, val, ann, conf = t[c['i']]
+    r = {'name': name, 'conforms': conf}
+    r['out'], r['exc'] = outcome(lambda: assert_value_matches_type(value=val, type_=ann, err='', type_vars={}, context={}))
+    return r
+
+
 def zoo_sizes():
     import zoo
     return len(zoo.annotations()), len(zoo.values())
@@ -186,6 +233,8 @@ def main():
         try:
             if c.get('obs') == 'zoo_sizes':
                 r = {'sizes': zoo_sizes()}
+            elif c.get('obs') == 'named':
+                r = run_named(c)
             elif c.get('obs') == 'missing':
                 r = run_missing(c)
             elif c.get('obs', '').startswith('zoo'):
